@@ -15,6 +15,7 @@ type Map struct {
 	delta     uint16
 	pidDelta  uint16
 	lastEntry uint16
+	dropRun   uint16 // number of consecutive drops
 	entries   []entry
 }
 
@@ -50,6 +51,7 @@ func (m *Map) Map(seqno uint16, pid uint16) (bool, uint16, uint16) {
 		addMapping(m, seqno, m.delta, m.pidDelta)
 		m.next = seqno + 1
 		m.nextPid = pid
+		m.dropRun = 0
 		return true, seqno + m.delta, m.pidDelta
 	}
 
@@ -69,6 +71,7 @@ func (m *Map) reset() {
 	m.delta = 0
 	m.pidDelta = 0
 	m.lastEntry = 0
+	m.dropRun = 0
 	m.entries = nil
 }
 
@@ -80,7 +83,14 @@ func addMapping(m *Map, seqno, delta, pidDelta uint16) {
 
 	i := m.lastEntry
 	if delta == m.entries[i].delta && pidDelta == m.entries[i].pidDelta {
-		m.entries[m.lastEntry].count = seqno - m.entries[i].first + 1
+		count := seqno - m.entries[i].first + 1
+		if count > 2*8192 {
+			// keep the interval short, so that comparisons
+			// modulo 2^16 with its start remain meaningful
+			m.entries[i].first += count - 8192
+			count = 8192
+		}
+		m.entries[i].count = count
 		return
 	}
 
@@ -208,6 +218,23 @@ func (m *Map) Drop(seqno uint16, pid uint16) bool {
 
 	m.delta--
 	m.next = seqno + 1
+
+	m.dropRun++
+	if m.dropRun >= 8192 {
+		// nothing that is in the table can be needed again; replace
+		// it with an empty interval, so that no interval gets old
+		// enough to be ambiguous modulo 2^16.
+		m.entries = []entry{
+			{
+				first:    m.next,
+				count:    0,
+				delta:    m.delta,
+				pidDelta: m.pidDelta,
+			},
+		}
+		m.lastEntry = 0
+		m.dropRun = 0
+	}
 	return true
 }
 
